@@ -219,7 +219,7 @@ impl Report {
             let f = st.first.as_ref().unwrap();
             let kf = known
                 .iter()
-                .find(|k| k.property == self.property && &k.class == class && k.status == "open");
+                .find(|k| k.property == self.property && glob_match(&k.class, class) && k.status == "open");
             if let Some(k) = kf {
                 lines.push(format!(
                     "KNOWN-FINDING: property={} class={} cases={} {}",
@@ -297,6 +297,31 @@ impl Report {
         );
         std::process::exit(if n_viol > 0 { 1 } else { 0 })
     }
+}
+
+/// `*` matches any (possibly empty) run of characters; everything else is literal.
+pub fn glob_match(pat: &str, s: &str) -> bool {
+    let parts: Vec<&str> = pat.split('*').collect();
+    if parts.len() == 1 {
+        return pat == s;
+    }
+    let mut pos = 0usize;
+    for (i, part) in parts.iter().enumerate() {
+        if i == 0 {
+            if !s.starts_with(part) {
+                return false;
+            }
+            pos = part.len();
+        } else if i == parts.len() - 1 {
+            return s.len() >= pos + part.len() && s[pos..].ends_with(part);
+        } else {
+            match s[pos..].find(part) {
+                Some(k) => pos += k + part.len(),
+                None => return false,
+            }
+        }
+    }
+    true
 }
 
 pub fn truncate(s: &str, n: usize) -> String {
